@@ -105,9 +105,6 @@ func (nds *NumpyDataset) ToColumnSeries(options ...int) (cs *ColumnSeries, err e
 	}
 
 	cs = NewColumnSeries()
-	if len(nds.ColumnData[0]) == 0 {
-		return cs, nil
-	}
 	/*
 		Coerce the []byte for each column into it's native pointer type
 	*/
@@ -158,14 +155,10 @@ func (nmds *NumpyMultiDataset) ToColumnSeriesMap() (csm ColumnSeriesMap, err err
 
 	for tbkStr, idx := range nmds.StartIndex {
 		length := nmds.Lengths[tbkStr]
-		var cs *ColumnSeries
-		if length > 0 {
-			cs, err = nmds.ToColumnSeries(idx, length)
-			if err != nil {
-				return nil, err
-			}
-		} else {
-			cs = NewColumnSeries()
+		// a bucket without rows keeps its key and its (empty, correctly typed) columns
+		cs, err := nmds.ToColumnSeries(idx, length)
+		if err != nil {
+			return nil, err
 		}
 		tbk := NewTimeBucketKeyFromString(tbkStr)
 		csm.AddColumnSeries(*tbk, cs)
